@@ -61,15 +61,50 @@ class TopGen:
                     self.textcmds.append((owner, name, terminated(content, typ), typ))
                 else:
                     steps = [r.choice(["walk_up", "walk_down", "face_left"]) for _ in range(r.randint(0, 3))]
-                    body[i] = ("cmd", "%s(1, moves(%s))" % (name, " ".join(steps)), None)
+                    # near-duplicates of earlier lists: same list, or last step repeated once more / once less
+                    if self.movecmds and r.random() < 0.5:
+                        base = list(r.choice(self.movecmds)[2]); x = r.random()
+                        if x < 0.3: steps = base
+                        elif x < 0.65 and base: steps = base + [base[-1]]
+                        elif base: steps = base[:-1]
+                    src_steps = []
+                    i2 = 0
+                    while i2 < len(steps):          # print runs with a multiplier now and then
+                        j = i2
+                        while j + 1 < len(steps) and steps[j + 1] == steps[i2]: j += 1
+                        if j > i2 and r.random() < 0.5: src_steps.append("%s * %d" % (steps[i2], j - i2 + 1))
+                        else: src_steps += steps[i2:j + 1]
+                        i2 = j + 1
+                    body[i] = ("cmd", "%s(1, moves(%s))" % (name, " ".join(src_steps)), None)
                     self.movecmds.append((owner, name, steps))
             elif k == "if":
-                for _, b in st[1]: self.decorate(b, owner)
+                arms = []
+                for c, b in st[1]:
+                    c2 = self.decorate_cond(c, owner)      # hoisting order: condition first, then body
+                    self.decorate(b, owner); arms.append((c2, b))
                 if st[2] is not None: self.decorate(st[2], owner)
-            elif k == "while": self.decorate(st[2], owner)
-            elif k == "do": self.decorate(st[1], owner)
+                body[i] = ("if", arms, st[2])
+            elif k == "while":
+                c2 = self.decorate_cond(st[1], owner) if st[1] is not None else None
+                self.decorate(st[2], owner); body[i] = ("while", c2, st[2])
+            elif k == "do":
+                self.decorate(st[1], owner); body[i] = ("do", st[1], self.decorate_cond(st[2], owner))
             elif k == "switch":
                 for _, b in st[2]: self.decorate(b, owner)
+    def decorate_cond(self, c, owner):
+        """Sometimes turn a leaf into an auto-var command with an inline text argument (its text is
+        hoisted like any other, in source order), wrapped in parentheses or not."""
+        r = self.r; k = c[0]
+        if k == "leaf":
+            if r.random() < 0.12:
+                self.n += 1; key = self.n
+                content = r.choice(["shared text", "cond text", gen_content(r)]); typ = r.choice(TEXT_TYPES)
+                self.textcmds.append((owner, "avtext:%d" % key, terminated(content, typ), typ))
+                leaf = ("auto", "avtext(%d, %s)" % (key, string_lit(r, content, typ)), None, "VAR_RESULT", r.choice(["", "!", "op"]), r.choice(["==", "!=", "<"]), r.randint(0, 2))
+                return ("paren", ("leaf", leaf)) if r.random() < 0.5 else ("leaf", leaf)
+            return c
+        if k in ("paren", "not"): return (k, self.decorate_cond(c[1], owner))
+        return (k, self.decorate_cond(c[1], owner), self.decorate_cond(c[2], owner))
     def script(self, name=None, scope=None, inline=False):
         r = self.r
         name = name or self.fresh("Script")
@@ -267,6 +302,8 @@ def oracle_C06(case, res):
     for ln in text.split("\n"):
         m = re.match(r"^\t(tc\d+) (?:1, )?(\S+)$", ln)
         if m: ref[m.group(1)] = m.group(2)
+        m = re.match(r"^\tavtext (\d+), (\S*)$", ln)
+        if m: ref["avtext:" + m.group(1)] = m.group(2)
     defs = asm_labels(text)
     counts = {}; assigned = {}
     for owner, name, content, typ in tg.textcmds:
